@@ -9,8 +9,10 @@
 //! `a:HEX` new_atom, `h:HEX` heap atom made by `new_concat` of two views, `v:HEX` substring view
 //! (`new_substr`) of a longer heap atom, `p:i,j` new_pair of earlier nodes (shared nodes = same NodePtr).
 //!
-//! A decode that may allocate an attacker-declared buffer (finding I) is executed in a child
-//! process (`h one DE …`, address space limited) and a death by signal is the reply `abort`.
+//! Finding I (allocate-before-read of the declared atom length) was repaired in /repo 090b8ec.  A decode
+//! with a large `max_atom_len` whose probe fails is still executed in a child process (`h one DE …`,
+//! address space limited, 20 s timeout): a death by signal is the reply `abort`, a hang `timeout` — both
+//! are plain violations now, and blobs declaring lengths anywhere up to 2^55 are part of the streams.
 use crate::rng::Rng;
 use crate::trees;
 use crate::util::*;
@@ -26,8 +28,7 @@ use std::collections::{HashMap, HashSet};
 use std::io::Cursor;
 
 pub const MAGIC: [u8; 6] = [0xfd, 0xff, b'2', b'0', b'2', b'6'];
-/// declared lengths up to this are allocated in-process; the generators never declare a length in
-/// (SAFE_ALLOC, 2^45)
+/// requests with a larger `max_atom_len` and a failing probe run in a child process
 const SAFE_ALLOC: usize = 1 << 24;
 /// unfolded-tree bound for anything that is printed as a classic serialization
 const MAX_UNFOLDED: u64 = 6000;
@@ -323,16 +324,6 @@ fn declares_huge_atom(blob: &[u8], max_atom_len: usize, strict: bool, threshold:
     None
 }
 
-/// Does the decoder only ever `resize` to a declared length that is either small enough to be
-/// really allocated or so large (>= 2^45) that the request fails at once?  Lengths in between would
-/// zero gigabytes of memory; such inputs are not generated (and refused by `run_de`).
-fn vetted(blob: &[u8], max_atom_len: usize, strict: bool) -> bool {
-    match declares_huge_atom(blob, max_atom_len, strict, SAFE_ALLOC as u64 + 1) {
-        Some(len) => len >= 1 << 45,
-        None => true,
-    }
-}
-
 /// a structurally free-form blob: groups in any order, instruction stream with both cons opcodes
 pub struct Blob {
     pub groups: Vec<Vec<Vec<u8>>>,
@@ -495,7 +486,7 @@ fn in_child(kind: &str, args: &[&str]) -> String {
     // an exec failure of the shell (126 / 127) is retried
     let mut last = String::new();
     for _attempt in 0..100 {
-        let out = std::process::Command::new("sh")
+        let mut child = std::process::Command::new("sh")
             .arg("-c")
             .arg("ulimit -v 16777216 2>/dev/null; exec \"$0\" \"$@\"")
             .arg(&exe)
@@ -505,9 +496,23 @@ fn in_child(kind: &str, args: &[&str]) -> String {
             .args(args)
             .env("VERIF_CHILD", "1")
             .env("RUST_BACKTRACE", "0")
+            .stdout(std::process::Stdio::piped())
             .stderr(std::process::Stdio::null())
-            .output()
+            .spawn()
             .unwrap();
+        let start = std::time::Instant::now();
+        loop {
+            match child.try_wait().unwrap() {
+                Some(_) => break,
+                None if start.elapsed().as_secs() >= 20 => {
+                    let _ = child.kill();
+                    let _ = child.wait();
+                    return "timeout".to_string();
+                }
+                None => std::thread::sleep(std::time::Duration::from_millis(2)),
+            }
+        }
+        let out = child.wait_with_output().unwrap();
         if out.status.signal().is_some() || out.status.code() == Some(134) {
             return "abort".to_string();
         }
@@ -538,7 +543,6 @@ pub fn run_de(args: &[&str]) -> String {
     let max = parse_max(args[2]);
     let strict = args[3] == "1";
     match args[0] {
-        "2026" if !vetted(&b, max, strict) => "refused-unvetted-declared-length".into(),
         "2026" => de_any(args[1], &b, max, strict),
         "len2026" => match serialized_length_serde_2026(&b, max, strict) {
             Ok(n) => format!("ok {}", n),
@@ -722,10 +726,25 @@ fn printable(blob: &[u8]) -> bool {
     }
 }
 
-/// blobs that declare an atom length the process cannot allocate (finding I)
+/// blobs that declare an atom length far beyond the bytes that follow (the inputs of finding I and its
+/// neighbourhood: lengths that could be allocated and zeroed, and lengths no process can allocate)
 fn huge_blobs() -> Vec<Vec<u8>> {
     let mut v = Vec::new();
-    for (len, extra) in [(1i64 << 45, 0usize), (1i64 << 45, 1), ((1i64 << 55) - 1, 0), (1i64 << 50, 0)] {
+    for (len, extra) in [
+        (1i64 << 45, 0usize),
+        (1i64 << 45, 1),
+        ((1i64 << 55) - 1, 0),
+        (1i64 << 50, 0),
+        ((1i64 << 24) + 1, 0),
+        (1i64 << 25, 1),
+        (1i64 << 30, 0),
+        (1i64 << 32, 0),
+        ((1i64 << 32) + 1, 0),
+        (1i64 << 33, 0),
+        (1i64 << 36, 0),
+        (1i64 << 40, 0),
+        (1i64 << 44, 0),
+    ] {
         // one group, positive form
         let mut o = MAGIC.to_vec();
         put_varint(&mut o, 1, 0);
@@ -785,9 +804,6 @@ pub fn generate(name: &str, rng: &mut Rng, n: usize, tier: &str) -> Vec<String> 
     }
     // ---- serde2026
     let de = |push: &mut dyn FnMut(&str, String), b: &[u8], max: u64, strict: bool| {
-        if !vetted(b, max as usize, strict) {
-            return;
-        }
         push("DE", format!("2026 {} {} {}", hex_or_dash(b), max, strict as u8));
         push("DE", format!("len2026 {} {} {}", hex_or_dash(b), max, strict as u8));
     };
@@ -1045,10 +1061,6 @@ fn check_rejected(rep: &mut OracleReport, blob: &[u8]) {
 
 /// totality and probe = consumed on an arbitrary byte string
 fn check_blob(rep: &mut OracleReport, blob: &[u8], max: usize, strict: bool) {
-    if !vetted(blob, max, strict) {
-        rep.hit("skipped_unvetted_declared_length");
-        return;
-    }
     rep.evaluations += 1;
     let hexb = hex_or_dash(blob);
     let what = || format!("blob={} max_atom_len={} strict={}", hexb, max as u64, strict as u8);
@@ -1071,15 +1083,12 @@ fn check_blob(rep: &mut OracleReport, blob: &[u8], max: usize, strict: bool) {
             }
         }
         "err" => {}
-        "abort" => {
-            if declares_huge_atom(blob, max, strict, 1 << 40).is_some() {
-                rep.fail(
-                    "de2026_total",
-                    format!("KNOWN-I-serde2026-alloc-before-read process aborted in buf.resize(declared length) {}", what()),
-                );
-            } else {
-                rep.fail("de2026_total", format!("deserialize_2026 aborted the process {}", what()));
-            }
+        "abort" | "timeout" => {
+            let declared = declares_huge_atom(blob, max, strict, SAFE_ALLOC as u64 + 1);
+            rep.fail(
+                "de2026_total",
+                format!("deserialize_2026 {} (declared atom length reached: {:?}) {}", kind, declared, what()),
+            );
         }
         _ => rep.fail("de2026_total", format!("deserialize_2026: {} {}", de, what())),
     }
